@@ -1603,7 +1603,11 @@ impl<'a, 'b> AuthorizedAccess<'a, 'b> {
                     match db_write.update(id, update) {
                         Ok(changed_fields) => {
                             if !changed_fields.is_empty() {
-                                changed.insert(id, changed_fields);
+                                // the same id may be updated more than once in a batch
+                                changed
+                                    .entry(id)
+                                    .or_insert_with(HashSet::new)
+                                    .extend(changed_fields);
                             }
                         }
                         Err(err) => {
